@@ -16,11 +16,13 @@ def main():
     H, K = (3, 5) if T == "quick" else (4, 7)
     shapes = [s for h in range(0, H + 1) for s in trees.avl_shapes(h)]
     inst = [("step", s, op) for s in shapes for op in ("insert", "remove", "search") if not (s is None and op == "remove")]
+    if T == "quick":        # removal needs the deepest shapes (successor several levels below the victim): all height-4 shapes, remove only
+        inst += [("step", s, "remove") for s in trees.avl_shapes(4)]
     hist = [("hist", s) for s in treecheck.op_strings(K)]
     res.functions.update(["a_avl_insert", "a_avl_insert_adjust", "a_avl_handle_growth", "a_avl_rotate", "a_avl_rotate2", "a_avl_remove",
                           "a_avl_handle_remove", "a_avl_handle_shrink", "a_avl_search", "a_avl_new_child", "a_avl_set_parent",
                           "a_avl_init", "a_avl_parent"])
-    res.bounds = {"inductive step": "one insert / remove / search with symbolic key or victim from every AVL tree of height <= %d (%d shapes), keys symbolic under the in-order strict order" % (H, len(shapes)),
+    res.bounds = {"inductive step": "one insert / remove / search with symbolic key or victim from every AVL tree of height <= %d (%d shapes), keys symbolic under the in-order strict order%s" % (H, len(shapes), "; remove additionally from all 315 shapes of height 4" if T == "quick" else ""),
                   "histories": "all %d insert/remove patterns of length %d from the empty tree; keys and victims symbolic" % (len(hist), K),
                   "configuration": "A_SIZE_POINTER == 8 (packed parent word)"}
     res.outside = ["trees higher than %d as pre-states (reached only as results)" % H, "the unpacked struct variant (A_SIZE_POINTER < 4)",
